@@ -172,6 +172,9 @@ func extraAlphabet() []Choice {
 		{Label: "evidence(k0,old)", Block: chain.Block{Evidence: []chain.Evidence{{Val: 0, HeightAgo: 1, Age: 121 * time.Second}}}},
 		{Label: "evidence(k0)+evidence(k1)", Block: chain.Block{Evidence: []chain.Evidence{{Val: 0, HeightAgo: 1, Age: time.Second}, {Val: 1, HeightAgo: 1, Age: time.Second}}}},
 		{Label: "prop=unknown", Block: chain.Block{Proposer: -1}},
+		// award recipients whose address is not 20 bytes long
+		evB("award(19-byte address,7)", chain.Event{Kind: "award", Who: 2000 + 3, Amount: 7}),
+		multiB("[award(23-byte,7),award(24-byte same first 20,11)]", chain.Event{Kind: "award", Who: 6000 + 3, Amount: 7}, chain.Event{Kind: "award", Who: 7000 + 3, Amount: 11}),
 		// slashes whose token amount truncates to zero
 		evB("burn(k0,0)", chain.Event{Kind: "burn", Who: 0, Sev: "0"}),
 		evB("burn(k0,0.000000000000000001)", chain.Event{Kind: "burn", Who: 0, Sev: "0.000000000000000001"}),
@@ -511,7 +514,17 @@ func posScenarios(id, tier string) []Scenario {
 		scs = append(scs, Scenario{Name: "interleaved-W=2", Cfg: windowCfg(2, 1, 2, 2*min), Alphabet: inter, K: k, D: d, Tail: 1})
 		scs = append(scs, Scenario{Name: "interleaved-W=3", Cfg: windowCfg(3, 1, 2, 2*min), Alphabet: inter, K: k, D: d, Tail: 1})
 		kf, df := kd(2, 4, 4, 5)
-		return fromStates(scs, bigStake(), inter, kf, df, "k0-jailed", "k0-unstaking", "k2-joined-k0-jailed")
+		scs = fromStates(scs, bigStake(), inter, kf, df, "k0-jailed", "k0-unstaking", "k2-joined-k0-jailed")
+		// a window of more than 255 blocks (the ring index no longer fits one byte): k0 misses the
+		// first 300 blocks of a 300-block window with 200 required signatures (no punishment inside the
+		// first window), then the alphabet decides what happens around the first jailing and after it
+		lw := windowCfg(300, 2, 3, 100*min)
+		var pre []chain.Block
+		for i := 0; i < 300; i++ {
+			pre = append(pre, chain.Block{Missed: []int{0}})
+		}
+		scs = append(scs, Scenario{Name: "window-300-after-300-misses", Cfg: lw, Prelude: pre, Alphabet: inter, K: 2, D: 3, Tail: 1})
+		return scs
 	case "C09":
 		k, d := kd(3, 4, 4, 5)
 		var scs []Scenario
